@@ -14,6 +14,7 @@ EXPLANATION = ("Static structural rules over simulator.py, events/*.py, charging
                "queue non-empty). Decided from CFG dominance, must-pass-through reachability, reaching definitions and "
                "linear forms; no code is executed."
                ' Added in round 3: decision tables of ChargingNetwork.plugin / unplug (the EVSE-level transition happens exactly once on the path on which it is due, never under a contradicted membership test), index domains of the plug/unplug path, growth of the history arrays to the current period on every path of the loop body (also in periods without events), every event handed to the queue is pushed (constructor, add_events) and `empty()` means the heap array is empty; generic well-formedness of every analysed function (no read of an undefined local, no dropped return).')
+EXPLANATION += ' Added in rounds 4-5: the event constants are those a concrete event class ends up with after constant propagation through its constructor chain (defaults such as `x or inf` included); growth of the history arrays counts through callees only where the callee grows on every one of its paths; _process_event is read one arm per event type after a case split by partial evaluation; generic rules G4 (no two attributes share one fresh mutable allocation) and G5 (new derived attributes are refreshed by every writer of what they were computed from).'
 NOT_DECIDED = "that a particular input has no overlapping sessions; numeric content of the recorded matrices"
 
 EVENT_CLASSES = ("UnplugEvent", "PluginEvent", "RecomputeEvent")
